@@ -206,3 +206,139 @@ pub fn storage_trace(o: &Opts) -> R<()> {
     println!("{}", json!({"runs": runs, "calls": calls}));
     Ok(())
 }
+
+// ------------------------------------------------------------------------------------------------
+// Memory (Memory.tla)
+
+use ethnum::U256;
+use storage_layout_extractor::vm::state::memory::Memory;
+
+/// <<"c", hi, lo>> for the constant hi * 2^24 + lo (hi: big-endian bytes, no leading zeros); <<"s", <<i>>, 0>> for the i-th symbolic offset.
+fn mkey(k: &RuntimeBoxedVal, symbolic: &[RuntimeBoxedVal]) -> J {
+    match k.constant_fold().data() {
+        SVD::KnownData { value } => {
+            let v = value.value_le();
+            let lo = (v & U256::from(0xff_ffffu32)).as_u32();
+            let hv: U256 = v >> 24u32;
+            let hi: Vec<u8> = hv.to_be_bytes().iter().copied().skip_while(|b| *b == 0).collect();
+            json!(["c", hi, lo])
+        }
+        _ => json!(["s", [symbolic.iter().position(|s| s == k).map_or(255, |i| i as u8)], 0]),
+    }
+}
+
+/// Values: ["z"] the zero word of untouched memory, ["p", id] a plain value, ["cat", [..]] a slice.
+fn mdesc(v: &RuntimeBoxedVal) -> J {
+    match v.data() {
+        SVD::KnownData { value } => {
+            let n: usize = value.into();
+            if n == 0 { json!(["z"]) } else { json!(["p", n.to_string()]) }
+        }
+        SVD::Concat { values } => json!(["cat", values.iter().map(mdesc).collect::<Vec<_>>()]),
+        _ => json!(["other", format!("{v:?}").chars().take(60).collect::<String>()]),
+    }
+}
+
+pub fn memory_trace(o: &Opts) -> R<()> {
+    let seed: u64 = o.num("seed", 1);
+    let runs: usize = o.num("runs", 40);
+    let len: usize = o.num("len", 120);
+    let mut rng = StdRng::seed_from_u64(seed ^ 0x3e30);
+    let mut w = Ndjson::create(&o.str("out")?)?;
+    w.put(&json!({"op": "begin"}));
+    let mut calls = 0usize;
+    let known = |rng: &mut StdRng, v: U256| RSV::new_known_value(rng.gen_range(0..50), KnownWord::from_le(v), Provenance::Synthetic, None);
+    for run in 0..runs {
+        w.put(&json!({"op": "reset", "run": run}));
+        let mut m = Memory::new(96);
+        let symbolic: Vec<RuntimeBoxedVal> = (0..3).map(|i| RSV::new_value(100 + i, Provenance::Synthetic)).collect();
+        let mut next_val = 1000usize;
+        // each run works on a few "pages" whose offsets agree in their low bits
+        let highs: Vec<U256> = {
+            let all = [
+                U256::ZERO,
+                U256::ONE << 16,
+                U256::ONE << 32,
+                U256::ONE << 41,
+                U256::ONE << 63,
+                U256::ONE << 64,
+                (U256::ONE << 64) + (U256::ONE << 32),
+                U256::ONE << 65,
+                U256::ONE << 128,
+                U256::ONE << 255,
+                U256::MAX - U256::from(0xffffu32),
+            ];
+            let mut h = vec![U256::ZERO];
+            for _ in 0..rng.gen_range(1..4) {
+                h.push(all[rng.gen_range(0..all.len())]);
+            }
+            h
+        };
+        for step in 0..len {
+            let low = U256::from(32u32 * rng.gen_range(0..5u32));
+            let cval = highs[rng.gen_range(0..highs.len())] + low;
+            // an offset: a constant (pushed, or computed as a sum / difference that folds to it) or symbolic
+            let key: RuntimeBoxedVal = match rng.gen_range(0..10) {
+                0..=5 => known(&mut rng, cval),
+                6 => {
+                    let a = U256::from(rng.gen_range(0..17u32)).min(cval);
+                    let (l, r) = (known(&mut rng, cval - a), known(&mut rng, a));
+                    RSV::new_synthetic(7, storage_layout_extractor::vm::value::RSVD::Add { left: l, right: r })
+                }
+                7 => {
+                    let a = U256::from(rng.gen_range(0..17u32));
+                    let (l, r) = (known(&mut rng, cval.wrapping_add(a)), known(&mut rng, a));
+                    RSV::new_synthetic(7, storage_layout_extractor::vm::value::RSVD::Subtract { left: l, right: r })
+                }
+                _ => symbolic[rng.gen_range(0..symbolic.len())].clone(),
+            };
+            let mut ev = json!({"k": mkey(&key, &symbolic), "run": run, "step": step, "v": ["none"], "res": ["none"], "n": -1});
+            match rng.gen_range(0..10) {
+                0..=3 => {
+                    if rng.gen_bool(0.5) {
+                        next_val += 1;
+                    }
+                    let v = known(&mut rng, U256::from(next_val as u64));
+                    ev["v"] = mdesc(&v);
+                    if rng.gen_bool(0.75) {
+                        ev["op"] = json!("store");
+                        m.store(key.clone(), v);
+                    } else {
+                        ev["op"] = json!("store8");
+                        m.store_8(key.clone(), v);
+                    }
+                }
+                4..=6 => {
+                    ev["op"] = json!("load");
+                    ev["res"] = mdesc(&m.load(&key));
+                }
+                7..=8 => {
+                    ev["op"] = json!("slice");
+                    let sizes = [0u32, 1, 31, 32, 33, 63, 64, 65, 95, 96, 97, 128, 1000, 65536];
+                    let size: RuntimeBoxedVal = if rng.gen_bool(0.8) {
+                        let n = sizes[rng.gen_range(0..sizes.len())];
+                        ev["n"] = json!(n);
+                        if rng.gen_bool(0.3) {
+                            let (l, r) = (known(&mut rng, U256::from(n) + 5), known(&mut rng, U256::from(5u32)));
+                            RSV::new_synthetic(9, storage_layout_extractor::vm::value::RSVD::Subtract { left: l, right: r })
+                        } else {
+                            known(&mut rng, U256::from(n))
+                        }
+                    } else {
+                        symbolic[rng.gen_range(0..symbolic.len())].clone()
+                    };
+                    ev["res"] = mdesc(&m.load_slice(&key, &size, 11));
+                }
+                _ => {
+                    ev["op"] = json!("entries");
+                }
+            }
+            calls += 1;
+            ev["entries"] = json!(m.entry_count());
+            w.put(&ev);
+        }
+    }
+    w.finish();
+    println!("{}", json!({"runs": runs, "calls": calls}));
+    Ok(())
+}
